@@ -178,6 +178,17 @@ func c06Case(r *core.Run, idx int, rng *rand.Rand) {
 		dv.Apply(rng, c)
 		c.Labels = append(c.Labels, dv.Name)
 	}
+	// now and then an attribute in front of the deviating part carries a value its type has no lexical form for
+	// (AllowCreate="yes"): whatever a decoder makes of that, what follows it still counts
+	if len(c.Labels) > 0 && idx%5 == 2 {
+		for _, l := range c.Labels {
+			if strings.HasPrefix(l, "conditions_") || l == "not_wellformed" || strings.HasPrefix(l, "destination") {
+				c.Req.NameIDPolicy, c.Req.AllowCreate = true, []string{"yes", "on", "TRUE", "2", " true", "y"}[rng.Intn(6)]
+				c.Labels = append(c.Labels, "unconvertible_attribute_in_front")
+				break
+			}
+		}
+	}
 	if len(c.Labels) == 0 {
 		c.Labels = []string{"conformant"}
 	}
